@@ -617,7 +617,8 @@ func execPlan(t *testing.T, pa any) (out core.Outcome) {
 		if netOrPack && cat == "tmp-obj" && crashRec.Class == simfs.OpWrite && strings.Contains(crashRec.Path, "tmp_pack_") {
 			out.Probe("crash-during-pack-write")
 		}
-		if cat == "shallow" && isNetKind(p.Op) {
+		if (cat == "shallow" || strings.Contains(crashRec.Path, "._shallow") || strings.HasSuffix(crashRec.Path2, "/shallow")) && isNetKind(p.Op) {
+			// since /repo d7730d7 the shallow file is written to a temporary file (._shallow*) and renamed
 			out.Probe("crash-during-shallow-write")
 		}
 		if removesRef && (strings.Contains(crashRec.Path, "._packed-refs") || pathCat(crashRec.Path2) == "packed-refs") {
